@@ -406,7 +406,10 @@ func (e *Eval) SetVariable(name string, value object.Object) {
 //
 // If the variable hasn't been set then the null-value will be returned.
 func (e *Eval) GetVariable(name string) object.Object {
-	value, ok := e.environment.Get(name)
+
+	// A variable is stored without the legacy "$" prefix, however its
+	// name was written.
+	value, ok := e.environment.Get(strings.TrimPrefix(name, "$"))
 	if ok {
 		return value
 	}
